@@ -18,7 +18,7 @@ CHECKS = {
  "C04": ("must-hold lock-state dataflow over SSA with exact defer replay + write/freshness census over the call graph from the concurrent entry points",
          "Static, for all schedules: every write to shared memory reachable from Execute/GetSchema/LRUCache.Get/Put is inside an exclusive critical section of a mutex on its access path and every read of such memory holds it; index, schema, getters, Query and globals are not written at all; only read-only bbolt transactions. This proves race freedom of updog's own memory rather than sampling interleavings.",
          "Not decided: sequential-equivalence of results (follows from race freedom + C03.pure, not checked as such). Trusted: sync primitives, thread-safety of concurrent reads in roaring/bbolt/prometheus.", "DESIGN.md §4 C04"),
- "C05": ("path-sensitive typestate exploration of the writers' flush functions (bitmap nil/dirty/persisted; transaction/bucket lifetime) + table agreement of the binary codecs and of the gob schema encoding + map-order rule on GetSchema + must-pass-through of the temp commit + the row-id rules shared with C18",
+ "C05": ("path-sensitive typestate exploration of the writers' flush functions (bitmap nil/dirty/persisted; transaction/bucket lifetime) + table agreement of the binary codecs and of the gob schema encoding + map-order rule on GetSchema + must-pass-through of the temp commit + must-pass-through (lookup-present edge or map insertion) in schema.add + the row-id rules shared with C18",
          "Static, for all AddRow sequences and both writers: ids come from a counter that only steps by one under the lock; every pair of a row is registered; in the big writer's merge loop no bitmap is used while nil or dropped before it is written (all paths of the unrolled loop); no transaction or bucket is used after its Commit; codecs, schema encoding and the persisted row counter agree between writers and the open function; GetSchema sorts what it collects from maps.",
          "Not decided: observational identity of the two writers' outputs; exact schema/value sets (values). Trusted: bbolt tx semantics, roaring serialisation, gob.", "DESIGN.md §4 C05"),
  "C06": ("must-pass-through path search on the SSA CFG of both writers' flush functions (header puts / commits / bitmap puts keyed by the resolved key variables) + dominating-guard and error-flow rules in the open function",
@@ -45,19 +45,19 @@ CHECKS = {
  "C14": ("interprocedural nil-ability analysis of protobuf message pointers (fixpoint over call sites) with dominating nil guards + non-nil-by-construction check of conversion results + error-flow in the handler",
          "Static, for every decodable request: every dereference of a possibly-nil message pointer reachable from the handler is nil-guarded; conversion never yields a nil Expression without an error and operands are used only when their conversion succeeded; handler errors become RPC errors. Necessary because grpc-go does not recover handler panics.",
          "Not decided: recursion depth for deeply nested expressions (bounded by protobuf-go/gRPC limits, trusted); continued correct service afterwards beyond lock release (C04).", "DESIGN.md §4 C14"),
- "C15": ("constant-option evaluation of the open hook + dominating nil/length guards + error-flow + must-pass-through (Close before every error return) on the open functions",
+ "C15": ("constant-option evaluation of the open hook + dominating nil/length guards + error-flow + must-pass-through (Close before every error return; Rollback/Commit after every explicit Begin) on the open functions",
          "Static, for every damaged file and every open/close sequence: OpenIndex cannot create a missing file; every dereference/decoding of file contents while opening is dominated by the matching guard and every decode error is propagated; every error return of the open function is preceded by a Close of the handle on all paths; Index.Close is nil-guarded and resets the handle.",
          "Not decided: which byte patterns fail to decode; panics inside bbolt/roaring on malformed bytes (trusted not to occur).", "DESIGN.md §4 C15"),
  "C17": ("must-hold lock-state dataflow on the driver's connection cache + same-critical-section path search (no unlock between lookup, OpenIndex and insert) + must-pass-through of the eviction before Index.Close",
          "Static, for every open/close/concurrent-use history: cache accesses hold the driver mutex; lookup, index open, insert and refcount increment form one exclusive critical section; the last Close evicts the connection in the critical section of the decrement before closing the index.",
          "Not decided: row correctness on an open handle (C12); two DSNs naming one file with different options (second open blocks on bbolt's flock; see DESIGN.md). Trusted: database/sql's calling conventions, bbolt flock.", "DESIGN.md §4 C17"),
- "C07": ("SSA provenance of the returned/stored/deleted entries (key matching) + must-pass-through of MoveToFront and of the eviction loop + term-set agreement of all byte-counter updates + path rules for the metric counters",
+ "C07": ("SSA provenance of the returned/stored/deleted entries (key matching) + must-pass-through of the map lookup and of the overwrite store in Put, of MoveToFront and of the eviction loop + term-set agreement of all byte-counter updates + path rules for the metric counters",
          "Static, for all Put/Get sequences and capacities: Get returns the bitmap found under the requested key; every use moves the element to the front and eviction removes the back; all counter updates use the same cost expression and the item size is refreshed whenever a bitmap is stored (also on overwrite); every increase is followed by the eviction loop, which runs while over capacity and non-empty; call/hit/miss counters are incremented exactly once on the matching paths.",
          "Not decided: that GetSizeInBytes equals the real memory size; 'nothing evicted while everything fits' as arithmetic. Trusted: container/list.", "DESIGN.md §4 C07"),
  "C08": ("effect analysis: census of stores/map updates/mutating calls over everything reachable from Execute, with local freshness (ownership) analysis",
          "Static, for all queries and execution histories: no instruction reachable from Execute writes a field of Query or of an expression node, or memory reachable from one, unless that memory was allocated during the call. Sufficient for 'caller-visible fields unchanged' under the stated trusted base.",
          "Not decided: equality of repeated results (needs C03.pure + determinism). Trusted: no reflection/unsafe in the reachable set (asserted), go/ssa, call graph.", "DESIGN.md §4 C08"),
- "C16": ("who-may-call census of bbolt.Open sites with constant-folded open options evaluated through openfile.OpenFile's CFG + callee deny-list over the call graph from all read entry points",
+ "C16": ("who-may-call census of bbolt.Open sites with constant-folded open options evaluated through openfile.OpenFile's CFG + callee deny-list over the call graph from all read entry points + who-may-call rule for path-destroying os calls on output paths (dominated-by-own-exclusive-create exemption)",
          "Static, for all file contents and query sequences: every output open carries O_EXCL, every input/scratch open clears O_CREATE (decided by evaluating OpenFile's branches on the site's constant options and the flag arithmetic of the returned hook); no bbolt write API or file-mutating os call is reachable from open/execute/schema/close, the driver's file connection or the gRPC handler.",
          "Not decided: byte-for-byte equality as such. Trusted: bbolt.Open(read-write) does not modify a well-formed file; OS O_EXCL semantics; call graph over-approximation.", "DESIGN.md §4 C16"),
  "C18": ("must-hold lock-state dataflow (exclusive mode, callee context propagation, LIFO defer replay) + SSA value identity of the row id + path enumeration of counter increments",
